@@ -267,7 +267,16 @@ func H_C04_iterate() {
 			verifrt.Cover("all")
 		}
 	}
-	w.check("iteration must not change the store")
+	// the slices handed to the consumer are the caller's: scribbling over them must not reach the store
+	for i := range gotK {
+		for j := range gotK[i] {
+			gotK[i][j] ^= 0xff
+		}
+		for j := range gotV[i] {
+			gotV[i][j] ^= 0xff
+		}
+	}
+	w.check("iteration (and writing to the keys / values it handed out) must not change the store")
 }
 
 //verif:h prop=C04 p.entries=2/3 p.maxkey=2/2 p.wrappers=2/4 cover=deleteprefix,clear runs=400000 timeout=100/900
